@@ -404,6 +404,23 @@ def r9(ctx, facts):
             sts = dj9.states_at(c.bb)
             if lookups and sts and all(any(in_set(x.get(("disc", dj9.disc_root(dj9.canon.path(g.dest)))), {1}) or in_set(x.get(("disc", (g.dest[0], ()))), {1}) for g in lookups) for x in sts):
                 guarded = True
+            if not guarded and lookups and sts:
+                # the outcome of a call made only on the `Some(bucket)` arm of that lookup is known here (`removed = match conns.get_mut(i)
+                # { Some(b) => remove(b), None => false }; if removed { .. conns[i] .. }`)
+                some_region = set()
+                for g in lookups:
+                    for sw in b.live_blocks:
+                        t9 = b.term(sw)
+                        if t9[0] != "switch":
+                            continue
+                        e9 = df.expr_of_operand(t9[1])
+                        if e9[0] == "disc" and (e9[1] == dj9.disc_root(dj9.canon.path(g.dest)) or e9[1][0] == g.dest[0]):
+                            edges9 = {int(v): tg for v, tg in t9[2]}
+                            some_tg = edges9.get(1, t9[3] if 1 not in edges9 else None)
+                            if some_tg is not None:
+                                some_region |= {x for x in b.live_blocks if b.dominates(some_tg, x)}
+                if some_region and all(any(k[0] == "call" and k[1] in some_region and v[0] == "in" and len(v[1]) == 1 and 1 in v[1] for k, v in x.items()) for x in sts):
+                    guarded = True
         r.instance("bucket-access-is-bounds-guarded#%d" % k, guarded,
                    "`conns[shard]` is indexed with the shard id the connection reported when it was opened, without `shard < conns.len()`: after a reshard to "
                    "fewer shards the late error of an old connection panics the refiller task", c.span)
